@@ -26,18 +26,25 @@ Fixpoint tagged_from (k : nat) (ps : list probe) : list tagged :=
 (* every spike of every probe, probe after probe, in file order *)
 Definition tagged_concat (ps : list probe) : list tagged := tagged_from 0 ps.
 
-(* well-formed input: the four per-spike arrays of a probe have the same length, every probe has a spike, ids >= 0 *)
+(* well-formed input: the four per-spike arrays of a probe have the same length, every probe has a spike, ids >= 0,
+   and every spike names one of the probe's templates: template id < number of rows of the probe's templates.npy
+   (that is, p_ntmpl >= max spike template + 1; templates without spikes -- trailing or not -- are allowed) *)
 Definition wf_probe (p : probe) : Prop :=
   length (p_amps p) = length (p_times p) /\ length (p_tmpl p) = length (p_times p) /\
   length (p_clu p) = length (p_times p) /\ p_times p <> [] /\
-  (forall c, In c (p_clu p) -> 0 <= c) /\ (forall c, In c (p_tmpl p) -> 0 <= c).
+  (forall c, In c (p_clu p) -> 0 <= c) /\ (forall c, In c (p_tmpl p) -> 0 <= c) /\
+  (forall c, In c (p_tmpl p) -> c < p_ntmpl p).
 Definition wf (ps : list probe) : Prop := ps <> [] /\ Forall wf_probe ps.
 
-(* ---- declarative offsets: number of ids of a probe = largest id + 1; offset = sum over the earlier probes ---- *)
+(* ---- declarative offsets ----
+   clusters: number of ids of a probe = largest cluster id + 1 (cluster ids have no per-probe array to count);
+   templates: number of templates of a probe = number of rows of its templates.npy (p_ntmpl) -- the SAME count by which
+   write_templates / write_template_data (C12) advance the rows of the merged templates.npy;
+   offset of probe k = sum over the earlier probes *)
 Definition zmaxl (l : list Z) : Z := fold_right Z.max 0 l.      (* the largest element of a non-empty list of ids >= 0 *)
 Definition n_ids (l : list Z) : Z := zmaxl l + 1.
 Definition coff_spec (ps : list probe) (k : nat) : Z := zsum (map (fun p => n_ids (p_clu p)) (firstn k ps)).
-Definition toff_spec (ps : list probe) (k : nat) : Z := zsum (map (fun p => n_ids (p_tmpl p)) (firstn k ps)).
+Definition toff_spec (ps : list probe) (k : nat) : Z := zsum (map (@p_ntmpl A V F) (firstn k ps)).
 
 (* ---- order: strictly increasing in (time, probe, index within the probe) ---- *)
 Definition taglt (a b : tagged) : Prop :=
@@ -169,13 +176,18 @@ Definition c_sorted (ps : list probe) (o : obs) : bool :=
   ties_by_probe (map (fun r => (r_time r, find_probe 0 ps (o_coffs o) (r_clu r)))
                      (zip_rows (o_times o) (o_amps o) (o_tmpl o) (o_clu o))).
 
-(* clause 23: each spike keeps its time and amplitude, ids shifted by the offsets of its probe *)
+(* clause 23: each spike keeps its time and amplitude, ids shifted by the offsets of its probe; the registered offsets
+   are the declarative ones: clusters = sum of (largest id + 1), templates = sum of the template COUNTS (rows of the
+   probes' templates.npy) of the earlier probes *)
 Definition c_payload (ps : list probe) (o : obs) : bool :=
   lens_ok o && Nat.eqb (length (o_coffs o)) (length ps) && Nat.eqb (length (o_toffs o)) (length ps) &&
+  list_eqb Z.eqb (o_coffs o) (map (coff_spec ps) (seq 0 (length ps))) &&
+  list_eqb Z.eqb (o_toffs o) (map (toff_spec ps) (seq 0 (length ps))) &&
   Nat.eqb (length (o_times o)) (length (concat (map rows_of ps))) &&
   forallb (fun kp => perm_b row_eqb (sub_rows ps o (fst kp)) (rows_of (snd kp))) (combine (seq 0 (length ps)) ps).
 
-(* clause 24: the id intervals [off_k, off_k + n_k) of different probes are pairwise disjoint *)
+(* clause 24: the id intervals [off_k, off_k + n_k) of different probes are pairwise disjoint
+   (n_k = largest cluster id + 1 for clusters, = the probe's template count for templates) *)
 Fixpoint ivs_disjoint (l : list (Z * Z)) : bool :=
   match l with
   | [] => true
@@ -184,7 +196,7 @@ Fixpoint ivs_disjoint (l : list (Z * Z)) : bool :=
 Definition c_disjoint (ps : list probe) (o : obs) : bool :=
   Nat.eqb (length (o_coffs o)) (length ps) && Nat.eqb (length (o_toffs o)) (length ps) &&
   ivs_disjoint (combine (o_coffs o) (map (fun p => n_ids (p_clu p)) ps)) &&
-  ivs_disjoint (combine (o_toffs o) (map (fun p => n_ids (p_tmpl p)) ps)).
+  ivs_disjoint (combine (o_toffs o) (map (@p_ntmpl A V F) ps)).
 
 (* clause 25: cluster_probes[id + off_k] = k for every cluster id of probe k, and the table has no other entries *)
 Definition c_cprobes (ps : list probe) (o : obs) : bool :=
